@@ -137,8 +137,9 @@ WellFormedOut(o) == o.utf8 /\ o.strict
 Allowed(r, o) == ActionOK(r, o) /\ SpecOK(r, o) /\ ErrOK(o) /\ WellFormedOut(o)
 
 (* an output line that is not a reply: asynchronous message *)
+(* ("error_update" reports a failed read; it is a reply only if it can answer the oldest open line) *)
 IsAsync(o, q) == \/ o.action \in AsyncActions
-                 \/ o.iserr /\ o.base = "update" /\ (q = <<>> \/ Head(q).act # "update")
+                 \/ o.iserr /\ o.base = "update" /\ (q = <<>> \/ ~(Loose(Head(q)) \/ Head(q).act = "update"))
 
 (* ---- the catalogue of line classes (gamma: harness/props/c07.py CLASSES, cross-checked) ---- *)
 Rq(act, spec, f) == [blank |-> "b" \in f, utf8 |-> ~("8" \in f), canon |-> ~("c" \in f),
